@@ -191,6 +191,9 @@ pub fn run(tier: Tier) -> i32 {
         Box::new(ms_b(if t { 6 } else { 4 }, false)),
         Box::new(ms_c()),
         Box::new(ms_d(t)),
+        Box::new(crate::families::scale_family(true)),
+        Box::new(crate::families::unicode_family()),
+        Box::new(crate::families::relation_family()),
     ];
     let corpus = corpus_files();
     let mut items = Vec::new();
